@@ -808,6 +808,8 @@ func (c *Conn) flush() error {
 	}
 
 	if len(c.writeList) == 0 {
+		// nothing to send: do not keep the writing event armed.
+		c.resetRead()
 		return nil
 	}
 
